@@ -1014,7 +1014,9 @@ def main(tier, seed=0, replay=None, only=None, procs=None):
     want_keys = replay is None and (not only or any(('key.' in s_) or s_.startswith('law_') or s_.startswith('twin_') or s_ == 'key' for s_ in only))
     h = None
     if want_keys:
-        h = CH.start(chfile, 30 if tier == 'quick' else 150, {'C11_KEY_LEN': '2' if tier == 'quick' else '3'})
+        from symx.loadscale import factor as _lf
+
+        h = CH.start(chfile, int((30 if tier == 'quick' else 150) * _lf()), {'C11_KEY_LEN': '2' if tier == 'quick' else '3'})
     rc = run_check(PID, tier, 'checks.C11', SHIMS, LEVEL, BASE_ASSUMPTIONS + CH_ASSUMPTIONS, bounds, seed=seed, replay=replay, only=only, procs=procs)
     if h is None:
         return rc
